@@ -145,6 +145,24 @@ def judge_case(data: bytes, st, pc, rs_out, vb: VB, tag: str, py_out=None) -> st
     return "differ"
 
 
+def _overlap_cases(st0):
+    h = rb.harness()
+    vb = VB()
+    n = 0
+    for code, rel in (("cb5150", "dst-above-src"), ("cb5051", "dst-below-src"), ("cf4f50", "dst-below-src"), ("cf504f", "dst-above-src"),
+                      ("32cb5150", "dst-above-src"), ("32cf4f50", "dst-below-src")):
+        d = bytes.fromhex(code)
+        ins, _ = drv.py_decode(d + bytes(4), CODE)
+        for cnt in (2, 3, 5):
+            st = dict(st0)
+            st["bg"] = dict(st0["bg"], I=cnt)
+            regs, mem, fill = build_case(d, st, CODE)
+            o = h.call(rs_req(regs, mem, fill))
+            judge_case(d, st, CODE, o, vb, f"overlap/{ins.name()}/{rel}")
+            n += 1
+    return {"n": n, "shapes": n, "agree": n - len(vb.d), "vb": vb}
+
+
 def _all_operands(ins):
     seen = []
     stack = list(getattr(ins, "_operands", []) or [])
@@ -209,7 +227,6 @@ PROGRAM_PALETTE_HEX = [
     "b004", "b024", "b034", "98001 0".replace(" ", ""), "f010 0020".replace(" ", ""), "e81004",
     "cb1020", "c01020", "c31020", "d4 10 20".replace(" ", ""), "dc10563402", "fc10", "ec10", "4402", "4424",
     "ed24", "fd24", "dd", "1200", "1800", "1a00", "32c81020", "25c81020", "3080 10".replace(" ", ""),
-    "cb5150", "cf4f50", "cb5051", "cf504f",   # MVL/MVLD whose source and destination runs overlap by all but one byte, in both directions
     "de", "df", "32ccf8ff", "32ccfe00",      # HALT, OFF (also executed while already in that state), MV (USR),FF, MV (SSR),00
 ]
 
@@ -420,6 +437,10 @@ def run(ctx) -> None:
         [0xE0, 0xE1, 0xE2, 0xE8, 0xE9, 0xEA, 0xF0, 0xF1, 0xF2, 0xF8, 0xF9, 0xFA, 0x56, 0x5E, 0xE3, 0xEB]
     wrap_st = [{"bpx": BPX[1], "bg": WRAP_BG, "F": 0, "fill": 0x10A, "wrap": True}]      # pointers a few bytes below the top of the 20-bit space
     res += pmap(_shard_shapes, [([(p, op) for op in c], [bytes.fromhex("b484858687")], states[:1] + wrap_st, []) for p in (None, 0x32) for c in chunks(disp_ops, nproc() // 2)])
+    # block moves whose source and destination runs overlap by all but one element, in both directions, I = 2..5 (own signatures,
+    # so that the direction in which the two cores already disagree does not hide the other one)
+    ov = _overlap_cases(states[0])
+    res.append(ov)
     # register-only instructions at the boundary values of every register width (no memory operand, so no wrap questions)
     bnd = [{"bpx": BPX[0], "bg": bg, "F": f, "fill": 0x10B} for f, bg in
            ((0, {"BA": 0xFFFF, "I": 0xFFFF, "X": 0xFFFFF, "Y": 0xFFFFF, "U": 0xFFFFF, "S": 0xFFFFF}),
